@@ -66,8 +66,10 @@ try:
     res["compiles"] = compiled == 0
     tr = []
     patched_pass = passed_tests("patched")
+    stable = set(json.load(open("/root/.vp/BASELINE.json"))["stable_pass"])
     for t in tests:
-        lost = sorted(clean_pass[t][0] - patched_pass[t][0])
+        # only tests of the stable baseline count (xfail / flaky tests flip between runs)
+        lost = sorted((clean_pass[t][0] & stable) - patched_pass[t][0])
         tr.append({"cmd": f"pytest -q {t}", "exit": 0 if not lost else 1, "clean": clean_pass[t][1], "summary": patched_pass[t][1],
                    "tests_passing_on_clean_tree": len(clean_pass[t][0]), "lost_with_patch": lost[:5], "wall_s": patched_pass[t][2]})
     res["tests"] = tr
